@@ -1,5 +1,6 @@
 import XdslProofs.Lemmas.IRStepAll
 import XdslProofs.Lemmas.IRStream
+import XdslModel.IRPartial
 /-!
 # C01 — IR edits keep the op/block/region tree and use-def chains consistent
 
@@ -407,6 +408,70 @@ example :
     s.opParent 4 = none ∧ (s.op! 1).operands = [0, 4] ∧ (s.op! 2).operands = [2, 0] ∧ (s.op! 2).successors = [1, 2] ∧
     (s.vuseL.toList 0).map s.use! = [(1, 0), (2, 1), (0, 0)] ∧ (s.buseL.toList 2).map s.use! = [(2, 1)] := by
   decide +kernel
+
+/-! ## Part 3b — the state a raising multi-element call leaves behind
+
+"calls that raise are skipped": skipping does not undo.  `Block.add_ops`, `Block.insert_ops_before`,
+`Region.add_block` run one step per element; when a later element is rejected the elements before it
+stay inserted, and that state (`XdslModel/IRPartial.lean`: `foldLeft`) is what later calls work on.
+It is consistent, and it is the state of the successful call when no step raises. -/
+
+/-- an invariant of every successful step holds of the state left behind, raising or not -/
+theorem foldLeft_inv {α : Type} (P : IRStore → Prop) (f : IRStore → α → R) (l : List α)
+    (step : ∀ s x s', x ∈ l → P s → f s x = .ok s' → P s') : ∀ s, P s → P (IRStore.foldLeft f s l) := by
+  induction l with
+  | nil => intro s hp; exact hp
+  | cons x r ih =>
+    intro s hp
+    unfold IRStore.foldLeft
+    cases hx : f s x with
+    | error e => exact hp
+    | ok s' =>
+      exact ih (fun t y t' hy => step t y t' (List.mem_cons_of_mem _ hy)) s'
+        (step s x s' (List.mem_cons_self ..) hp hx)
+
+/-- when no step raises, the state left behind is the result of the call -/
+theorem foldLeft_of_ok {α : Type} (f : IRStore → α → R) (l : List α) :
+    ∀ s s', l.foldlM f s = .ok s' → IRStore.foldLeft f s l = s' := by
+  induction l with
+  | nil => intro s s' h; simp [List.foldlM] at h; exact h
+  | cons x r ih =>
+    intro s s' h
+    unfold IRStore.foldLeft
+    cases hx : f s x with
+    | error e => simp [List.foldlM, hx] at h
+    | ok t => simp [List.foldlM, hx] at h; exact ih t s' h
+
+/-- `Block.add_ops(ops)` that raises (or not) leaves consistent IR: the ops before the rejected one
+are appended, in both directions. -/
+theorem add_ops_raising_state_inv {s : IRStore} (h : Inv s) {b : Nat} {ops : List Nat}
+    (hr : ∀ o ∈ ops, regO s o) (hb : regB s b) : Inv (s.addOpsLeft b ops) :=
+  (foldLeft_inv (fun t => Inv t ∧ Same s t) _ ops
+    (fun t x t' hx hp ht => by
+      obtain ⟨h1, h2⟩ := hp.1.addOp (hp.2.regO (hr x hx)) (hp.2.regB hb) ht
+      exact ⟨h1, hp.2.trans h2⟩) s ⟨h, Same.refl s⟩).1
+
+/-- the same for `Block.insert_ops_before(ops, existing_op)` -/
+theorem insert_ops_before_raising_state_inv {s : IRStore} (h : Inv s) {b ex : Nat} {ops : List Nat}
+    (hr : ∀ o ∈ ops, regO s o) : Inv (s.insertOpsBeforeLeft b ops ex) :=
+  (foldLeft_inv (fun t => Inv t ∧ Same s t) _ ops
+    (fun t x t' hx hp ht => by
+      obtain ⟨h1, h2⟩ := hp.1.insertOpBefore (hp.2.regO (hr x hx)) ht
+      exact ⟨h1, hp.2.trans h2⟩) s ⟨h, Same.refl s⟩).1
+
+/-- the same for `Region.add_block(blocks)` (with 'fix: Region.add_block / insert_block_before repair
+the outer link when a later block is rejected': the blocks before the rejected one stay appended) -/
+theorem add_block_raising_state_inv {s : IRStore} (h : Inv s) {r : Nat} {bs : List Nat}
+    (hbs : ∀ b ∈ bs, regB s b) (hr : regR s r) : Inv (s.addBlockLeft r bs) :=
+  (foldLeft_inv (fun t => Inv t ∧ Same s t) _ bs
+    (fun t x t' hx hp ht => by
+      obtain ⟨h1, h2⟩ := hp.1.addBlock (bs := [x]) (fun b hb => by
+        simp only [List.mem_singleton] at hb; exact hb ▸ hp.2.regB (hbs x hx)) (hp.2.regR hr) ht
+      exact ⟨h1, hp.2.trans h2⟩) s ⟨h, Same.refl s⟩).1
+
+/-- a successful `add_ops` is the state left behind -/
+theorem add_ops_left_of_ok {s s' : IRStore} {b : Nat} {ops : List Nat} (hok : s.addOps b ops = .ok s') :
+    s.addOpsLeft b ops = s' := foldLeft_of_ok _ ops s s' hok
 
 /-! ## Part 4 — erasure, and all 58 call kinds -/
 
